@@ -45,7 +45,7 @@ REQUIRED_COUNTERS = [
     "m2_bitflips", "m4_bitflips", "ip_end_to_end_sessions", "ble_end_to_end_sessions", "coap_end_to_end_sessions",
 ]
 
-BLE_COAP_BUILT = False
+BLE_COAP_BUILT = True
 if not BLE_COAP_BUILT:
     REQUIRED_COUNTERS = [c for c in REQUIRED_COUNTERS if not c.startswith(("ble_", "coap_"))]
 
